@@ -1037,15 +1037,12 @@ func noRecode(c *core.Ctx) {
 	}
 	exceptions := map[string]string{
 		"connectUnaryUnmarshaler.UnmarshalFunc/discardedBytes": "over-limit branch: the call already fails with the documented over-limit error; the discard's failure only changes the text",
-		"compressionPool.Decompress":                           "reads from an in-memory buffer through the decompressor, never from the transport",
-		"compressionPool.Compress":                             "writes into an in-memory buffer",
-		"envelopeReader.Unmarshal":                             "copies between in-memory buffers",
-		"newDuplexHTTPCall":                                    "http.NewRequestWithContext's error",
-		"wrapIfRSTError":                                       "classifier itself: runs after the asError early return",
-		"wrapIfContextError":                                   "classifier itself",
-		"wrapIfUncoded":                                        "classifier itself: wraps only what asError found uncoded",
-		"validateRequestURL":                                   "url parse error",
-		"grpcHandler.SetTimeout":                               "timeout parse error",
+		"newDuplexHTTPCall":      "http.NewRequestWithContext's error",
+		"wrapIfRSTError":         "classifier itself: runs after the asError early return",
+		"wrapIfContextError":     "classifier itself",
+		"wrapIfUncoded":          "classifier itself: wraps only what asError found uncoded",
+		"validateRequestURL":     "url parse error",
+		"grpcHandler.SetTimeout": "timeout parse error",
 	}
 	sites := 0
 	for _, fd := range p.AllFuncDecls(p.Connect) {
@@ -1099,6 +1096,22 @@ func noRecode(c *core.Ctx) {
 				}
 				sf := astx.CalleeFunc(info, src)
 				if neverCoded(sf, src) {
+					continue
+				}
+				// copies whose source is an in-memory buffer or a (de)compressor working on one never see the transport
+				inMemory := false
+				if rn := astx.RecvNamed(funcOf(info, fd)); rn != nil && rn.Obj().Name() == "compressionPool" {
+					inMemory = true
+				}
+				for _, a := range src.Args {
+					if t := info.TypeOf(a); t != nil && astx.TypeIs(t, "bytes", "Buffer") && sf != nil && (sf.Name() == "ReadFrom" || sf.Name() == "Copy") {
+						inMemory = true
+					}
+				}
+				if inMemory {
+					sites++
+					c.Ok(fmt.Sprintf("recode/%s#%d", name, idx), call.Pos(), "%s wraps the error of %s, an in-memory copy (never a transport error)", name, types.ExprString(src.Fun))
+					idx++
 					continue
 				}
 				sites++
